@@ -124,6 +124,7 @@ Definition field_shapes (v : fval) : list tshape :=
   | VSalt w => [TWord (map SChar (salt_text w))]
   | VQuoted b => [TQuoted (map quoted_from_octet b)]
   | VIp4 a => [TWord (map SChar (show_ip4 a))]
+  | VDot => [TWord [SChar ch_dot]]
   end.
 
 (* the write_token / begin_block calls of a field: an empty rest-of-entry word is an empty
@@ -149,6 +150,7 @@ Definition wf_field (k : fkind) (v : fval) : Prop :=
   | FSalt, VSalt w => forallb plain_char w = true /\ w <> [45]
   | FQuoted, VQuoted b => wf_bytes b
   | FIp4, VIp4 a => wf_ip4 a
+  | FDot, VDot => True
   | _, _ => False
   end.
 
@@ -166,7 +168,7 @@ Proof. rewrite map_map. apply map_ext. intros sh. reflexivity. Qed.
 
 Lemma val_sops_text v : map erase (val_sops v) = show_field v.
 Proof.
-  destruct v as [n|n|b|w|l|w|n|l|w|b|a]; cbn [val_sops show_field]; try rewrite stoks_text; cbn [field_shapes map erase].
+  destruct v as [n|n|b|w|l|w|n|l|w|b|a|]; cbn [val_sops show_field]; try rewrite stoks_text; cbn [field_shapes map erase].
   - cbn [shape_text]. rewrite plain_syms_text. reflexivity.
   - rewrite <- show_name_shape. reflexivity.
   - rewrite <- cstr_quoted_shape. reflexivity.
@@ -179,6 +181,7 @@ Proof.
   - cbn [join shape_text]. rewrite plain_syms_text. reflexivity.
   - rewrite <- cstr_quoted_shape. reflexivity.
   - cbn [shape_text]. rewrite plain_syms_text. reflexivity.
+  - reflexivity.
 Qed.
 
 Lemma rtype_plain n : n < 65536 -> plain_word (show_rtype n) = true.
@@ -204,6 +207,7 @@ Proof.
   - constructor; [exact I|]. constructor; [|constructor]. apply S, plain_word_good, salt_text_plain, W.
   - constructor; [|constructor]. apply S, plain_word_good, show_dec_plain.
   - constructor; [|constructor]. apply S, plain_word_good, show_ip4_plain, W.
+  - constructor; [|constructor]. apply S. reflexivity.
   - constructor; [|constructor]. apply S, cstr_quoted_good, W.
   - destruct w as [|c w]; [repeat constructor|]. constructor; [|constructor]. apply S, plain_word_good.
     unfold plain_word. rewrite W. reflexivity.
@@ -267,6 +271,8 @@ Proof.
   - rewrite read_timestamp_dec by exact Wv. cbn [bind]. rewrite IH by exact Wr. reflexivity.
   - pose proof (show_ip4_plain _ Wv) as P. unfold plain_word in P. apply andb_true_iff in P as [_ P].
     rewrite plain_read_octets by exact P. cbn [bind]. rewrite parse_show_ip4 by exact Wv. cbv iota. cbn [bind]. rewrite IH by exact Wr. reflexivity.
+  - change (read_ascii (shape_tok true (TWord [SChar ch_dot]))) with (Ok [46] : outcome text). cbn [bind].
+    rewrite IH by exact Wr. reflexivity.
   - rewrite read_octets_quoted by exact Wv. cbn [bind]. rewrite IH by exact Wr. reflexivity.
   - destruct (Last (or_intror (or_introl eq_refl))) as [-> ->].
     cbn [flat_map]. rewrite app_nil_r.
@@ -276,10 +282,10 @@ Qed.
 
 (* ------------------------------------------------------------------ records *)
 
-Definition field_sops (fc : fval * option text) : list sop :=
-  val_sops (fst fc) ++ match snd fc with Some c => [SComment c] | None => [] end
+Definition field_sops (fc : fval * list text) : list sop :=
+  val_sops (fst fc) ++ map SComment (snd fc)
   ++ match fst fc with VSalt _ => [SEnd] | _ => [] end.
-Definition data_sops (block : bool) (fs : list (fval * option text)) : list sop :=
+Definition data_sops (block : bool) (fs : list (fval * list text)) : list sop :=
   if block then SBegin :: flat_map field_sops fs ++ [SEnd] else flat_map field_sops fs.
 Definition record_sops (r : record) : list sop :=
   STok (TWord (name_shape_syms (r_owner r))) :: STok (TWord (map SChar (show_dec (r_ttl r))))
@@ -289,7 +295,7 @@ Definition record_sops (r : record) : list sop :=
 Lemma erase_field_sops fc : map erase (field_sops fc) = field_ops fc.
 Proof.
   unfold field_sops, field_ops. rewrite !map_app. f_equal; [apply val_sops_text|]. f_equal.
-  - destruct (snd fc); reflexivity.
+  - rewrite map_map. reflexivity.
   - destruct (fst fc); reflexivity.
 Qed.
 
@@ -305,8 +311,8 @@ Proof.
   - apply erase_flat.
 Qed.
 
-Definition comments_ok (fs : list (fval * option text)) : Prop :=
-  Forall (fun fc => match snd fc with Some c => ~ In ch_lf c | None => True end) fs.
+Definition comments_ok (fs : list (fval * list text)) : Prop :=
+  Forall (fun fc => Forall (fun c => ~ In ch_lf c) (snd fc)) fs.
 
 Definition wf_record (schema : list fkind) (r : record) : Prop :=
   wf_name (r_owner r) /\ r_ttl r <= 4294967295 /\ r_class r < 65536 /\ r_type r < 65536 /\
@@ -327,7 +333,7 @@ Proof.
   unfold field_sops. cbn [fst snd]. apply Forall_app. split.
   - exact (val_sops_good k _ Wk).
   - apply Forall_app. split.
-    + destruct oc; [constructor; [exact C1 | constructor] | constructor].
+    + rewrite Forall_map. exact C1.
     + destruct v; repeat constructor.
 Qed.
 
@@ -341,9 +347,9 @@ Proof. induction l as [|sh l IH]; [reflexivity|]. cbn [map app expect]. f_equal.
 Lemma balanced_field fc d rest : balanced d (field_sops fc ++ rest) = balanced d rest.
 Proof.
   destruct fc as [v oc]. unfold field_sops. cbn [fst snd]. rewrite <- !app_assoc.
-  assert (C : forall d r, balanced d (match oc with Some c => [SComment c] | None => [] end ++ r) = balanced d r).
-  { intros d0 r. destruct oc; reflexivity. }
-  destruct v as [n|n|b|w|l|w|n|l|w|b|a]; cbn [val_sops];
+  assert (C : forall d r, balanced d (map SComment oc ++ r) = balanced d r).
+  { intros d0 r. induction oc as [|c oc IHc]; [reflexivity | exact IHc]. }
+  destruct v as [n|n|b|w|l|w|n|l|w|b|a|]; cbn [val_sops];
     try (rewrite balanced_stoks, C; reflexivity).
   - destruct w as [|c w]; [cbn [app balanced]; rewrite C; reflexivity | rewrite balanced_stoks, C; reflexivity].
   - cbn [app balanced]. rewrite balanced_stoks, C. cbn [app balanced].
@@ -354,9 +360,9 @@ Lemma expect_field multi fc rest :
   expect multi true (field_sops fc ++ rest) = map (shape_tok true) (field_shapes (fst fc)) ++ expect multi true rest.
 Proof.
   destruct fc as [v oc]. unfold field_sops. cbn [fst snd]. rewrite <- !app_assoc.
-  assert (C : forall r, expect multi true (match oc with Some c => [SComment c] | None => [] end ++ r) = expect multi true r).
-  { intros r. destruct oc; reflexivity. }
-  destruct v as [n|n|b|w|l|w|n|l|w|b|a]; cbn [val_sops];
+  assert (C : forall r, expect multi true (map SComment oc ++ r) = expect multi true r).
+  { intros r. induction oc as [|c oc IHc]; [reflexivity | exact IHc]. }
+  destruct v as [n|n|b|w|l|w|n|l|w|b|a|]; cbn [val_sops];
     try (rewrite expect_stoks, C; reflexivity).
   - destruct w as [|c w]; [cbn [app expect]; rewrite C; reflexivity | rewrite expect_stoks, C; reflexivity].
   - cbn [app expect orb]. rewrite expect_stoks, C. reflexivity.
@@ -426,6 +432,23 @@ Proof.
       rewrite X, andb_false_r. exact RN.
 Qed.
 
+(* owner names at entry level: whatever the first label starts with ('$', '@', '\', '(', ';',
+   a blank ...), the text written by fmt_with_dot at the start of a line is one unspaced token
+   that _scan_entry takes for an owner name -- not for a control entry, the origin or an
+   indented entry -- and reads back octet for octet *)
+Theorem owner_roundtrip n rest : wf_name n -> starts_delim rest = true ->
+  exists t, run (Ok st0) (show_name n ++ rest) = run (Ok (0, [t], MSkip false)) rest /\
+            t_spaced t = false /\ read_owner None t = Ok n.
+Proof.
+  intros W D. destruct (scan_show_name n 0 [] false rest None W D) as (t & R & E & _).
+  exists t. split; [exact R|]. subst t. split; [reflexivity | apply read_owner_ok, W].
+Qed.
+
+Example ex_owner_specials :
+  map (fun c => c06_owner (show_name [[c; 97]] ++ [32; 48; 32; 73; 78; 32; 78; 83; 32; 46; 10])) [36; 64; 92; 40; 59; 32; 34; 46]
+  = map (fun c => Ok [[c; 97]]) [36; 64; 92; 40; 59; 32; 34; 46].
+Proof. vm_compute. reflexivity. Qed.
+
 (* scan_show_record: every record over regular field kinds, written by any of the three
    writers, reads back equal *)
 Theorem scan_show_record k schema r : wf_record schema r ->
@@ -448,12 +471,12 @@ Qed.
 Theorem scan_show_record_txt_no_strings_refuted : exists k r,
   exists t, show_record k r = Ok t /\ read_record [FCharstrs] t = Err E_tokens.
 Proof.
-  exists KSimple, (mk_record [[97]] 0 1 16 true [(VCharstrs [], None)]).
+  exists KSimple, (mk_record [[97]] 0 1 16 true [(VCharstrs [], [])]).
   eexists. split; [vm_compute; reflexivity|]. vm_compute. reflexivity.
 Qed.
 
 Example ex_dollar_owner : exists t,
-  show_record KSimple (mk_record [[36]] 3600 1 15 true [(VUint 10, Some [112]); (VName [[97]], None)]) = Ok t /\
+  show_record KSimple (mk_record [[36]] 3600 1 15 true [(VUint 10, [[112]]); (VName [[97]], [])]) = Ok t /\
   read_record [FUint 65535; FName] t = Ok ([[36]], 3600, 1, 15, [VUint 10; VName [[97]]]).
 Proof. eexists. split; [vm_compute; reflexivity|]. vm_compute. reflexivity. Qed.
 
@@ -544,7 +567,7 @@ Qed.
 
 (* non-vacuity *)
 Example ex_record :
-  show_record KMulti (mk_record [[97; 59]] 3600 1 15 true [(VUint 10, Some [112]); (VName [[109]], None)])
+  show_record KMulti (mk_record [[97; 59]] 3600 1 15 true [(VUint 10, [[112]]); (VName [[109]], [])])
   = Ok [97; 92; 59; 46; 32; 51; 54; 48; 48; 32; 73; 78; 32; 77; 88; 32; 40; 32; 49; 48; 9; 59; 32; 112; 10;
         32; 32; 32; 32; 32; 32; 32; 32; 32; 32; 32; 32; 32; 32; 32; 32; 32; 32; 109; 46; 32; 41; 10].
 Proof. vm_compute. reflexivity. Qed.
